@@ -256,7 +256,7 @@ def run(ctx):
         multi += gen(ctx, {"L": L, "Ks": ks, "Bases": "{65530}", "SPs": "{1}", "LPs": "{1}"})
 
     if ctx.quick:
-        n_single, n_multi, n_icpt, n_conc, n_big = 150, 40, 50, 10, 3
+        n_single, n_multi, n_icpt, n_conc, n_big = 120, 30, 40, 8, 3
     else:
         n_single, n_multi, n_icpt, n_conc, n_big = len(singles), 900, 500, 60, 36
     pick = singles if n_single >= len(singles) else rng.sample(singles, n_single)
@@ -275,7 +275,7 @@ def run(ctx):
         b = rng.choice(small_k)
         scripts.append(enc_script(rng, b, big=True) if i % 2 == 0 else icpt_script(rng, b[0], 2, big=True))
     rng.shuffle(scripts)
-    chunk = 120 if ctx.quick else 150
+    chunk = 200 if ctx.quick else 150
     for i in range(0, len(scripts), chunk):
         run_batch(ctx, scripts[i:i + chunk], "G-seq-%d" % (i // chunk))
 
